@@ -327,6 +327,28 @@ func genC06Decoders(r *vc.Run) {
 			}
 		}
 	}
+	// the helper behind every ValidateBasic: part counts n-1, n, n+1 around the counts the protocols use, empty parts at each end
+	for _, n := range []int{1, 2, 3, 5, 6, 10, 11, 12, 13, 163, 258} {
+		for _, have := range []int{0, n - 1, n, n + 1} {
+			if have < 0 {
+				continue
+			}
+			for _, emptyAt := range []int{-1, 0, have - 1} {
+				if emptyAt >= have {
+					continue
+				}
+				parts := make([]val.V, have)
+				for i := range parts {
+					parts[i] = val.B([]byte{byte(i + 1)})
+					if i == emptyAt {
+						parts[i] = val.B([]byte{})
+					}
+				}
+				r.Case("validate/non_empty_multi", true, "non_empty_multi", val.List(parts), val.I64(int64(n)))
+				r.Case("validate/non_empty_multi", true, "non_empty_multi", val.List(parts), val.A("none"))
+			}
+		}
+	}
 	// length-prefixed wire forms re-cut: the same 258 entries of an honest DLN proof with the two length prefixes moved
 	// (129/127, 127/129, 130/126, 256/0, ...), decoded and, when accepted, verified
 	{
